@@ -6,14 +6,20 @@ Steps: fresh worktree of /repo HEAD -> demo exits 0 -> apply patch -> demo exits
 import json, os, shutil, subprocess, sys, time
 
 pid = sys.argv[1]
-checks = [pid] + sys.argv[2:]
-src = f"/tmp/seed-{pid}"
-dst = f"/verif/seeded/{pid}"
+rnd = ""
+args = sys.argv[2:]
+if "--round" in args:
+    i = args.index("--round")
+    rnd = args[i + 1]
+    del args[i:i + 2]
+checks = [pid] + args
+src = f"/tmp/seed{rnd}-{pid}"
+dst = f"/verif/seeded/{pid}" + (f"-{rnd}" if rnd else "")
 os.makedirs(dst, exist_ok=True)
 for f in ("patch.diff", "demo.py", "meta.json"):
     if os.path.exists(os.path.join(src, f)):
         shutil.copy(os.path.join(src, f), os.path.join(dst, f))
-wt = f"/tmp/vs-{pid}"
+wt = f"/tmp/vs{rnd}-{pid}"
 subprocess.run(["git", "-C", "/repo", "worktree", "remove", "--force", wt], capture_output=True)
 subprocess.run(["git", "-C", "/repo", "worktree", "add", "-q", "--detach", wt], check=True)
 res = {"repo_head": subprocess.run(["git", "-C", "/repo", "rev-parse", "--short", "HEAD"], capture_output=True, text=True).stdout.strip()}
